@@ -19,6 +19,12 @@ type leafHash string
 func (h leafHash) GetHash() string      { return string(h) }
 func (h leafHash) GetHashBytes() []byte { b, _ := hex.DecodeString(string(h)); return b }
 
+// ptrLeaf is a leaf whose hash can be edited in place.
+type ptrLeaf struct{ h string }
+
+func (p *ptrLeaf) GetHash() string      { return p.h }
+func (p *ptrLeaf) GetHashBytes() []byte { b, _ := hex.DecodeString(p.h); return b }
+
 func refHashHex(s string) string {
 	h := sha3.New256()
 	h.Write([]byte(s))
@@ -444,6 +450,32 @@ func runC19(c *fw.Ctx) {
 			c.Count("downward_lookups", 1)
 		}
 	}
+	// leaves that are pointers to mutable objects: the same objects, one of them edited in place, are computed again into the
+	// same tree object - the tree must follow the leaves' current hashes (not the identity of the objects)
+	if n%8 == 3 && n <= 600 {
+		pl := make([]util.Hashable, n)
+		cur := make([]string, n)
+		for i := range pl {
+			cur[i] = ls[i]
+			pl[i] = &ptrLeaf{h: ls[i]}
+		}
+		var pt util.MerkleTree
+		pt.ComputeTree(pl)
+		if pt.GetRoot() != refMerkleRoot(cur) {
+			c.Violate("", "n=%d: tree of pointer leaves has root %s, reference %s", n, pt.GetRoot(), refMerkleRoot(cur))
+		}
+		ei := c.Rng.Intn(n)
+		pl[ei].(*ptrLeaf).h = lsB[n/2]
+		cur[ei] = lsB[n/2]
+		pt.ComputeTree(pl)
+		wantRoot := refMerkleRoot(cur)
+		if pt.GetRoot() != wantRoot {
+			c.Violate("", "n=%d: leaf object %d was edited in place and the same objects computed again into the same tree: root %s, reference %s", n, ei, pt.GetRoot(), wantRoot)
+		} else if p := pt.GetPathByIndex(ei); p == nil || !refVerify(cur[ei], p.Nodes, ei, wantRoot) {
+			c.Violate("", "n=%d: path of the edited leaf object %d does not prove its current hash", n, ei)
+		}
+		c.Count("trees_of_pointer_leaves_recomputed_after_an_edit", 1)
+	}
 	if n == 1 || n == 2 || n == 3 || n == 1000 {
 		c.Sample(map[string]any{"n": n, "root": root, "path_of_last_leaf": mt.GetPathByIndex(n - 1)})
 	}
@@ -467,12 +499,12 @@ func init() {
 		Level:        "exploration",
 		Rule: "one case per leaf count n=1..N (N=1024 quick, 4096 thorough) plus 64 larger sizes N+1+63k (every residue modulo 16) with distinct leaf hashes derived from (seed,n,i), all of one width per tree (64 hex characters; for every fourth n one of 1, 8, 40, 63, 65, 96, 128, 200 characters); every leaf index i is exercised: " +
 			"path by index and by leaf lookup must verify against GetRoot() (library verifier and an independent one), root must equal an independent pairwise/duplicate-last reference, " +
-			"the same path must not verify for other leaves (all others for n<=64; neighbours, sibling, last leaves, 3 random and a one-nibble mutation above), export/import must reproduce root and paths; a different tree (rotated leaves plus one new leaf) is then loaded with SetTree / re-computed with ComputeTree into the objects that already served lookups and its by-leaf and by-index paths must prove the new leaves only; returned paths are edited/appended to by the harness and the tree re-verified; one long-lived object that served lookups is then given trees of other sizes (smaller, same depth, other depth) through ComputeTree and SetTree and must prove each of them by index and by leaf; by-leaf lookups also walk the leaves downwards; every 16th size also computes independent trees in 4 concurrent goroutines and compares with the sequential roots; a tree loaded from GetTree() without copying must be unaffected by the exporter computing other trees, and by SetTree calls on itself that are rejected for a wrong size. " +
+			"the same path must not verify for other leaves (all others for n<=64; neighbours, sibling, last leaves, 3 random and a one-nibble mutation above), export/import must reproduce root and paths; a different tree (rotated leaves plus one new leaf) is then loaded with SetTree / re-computed with ComputeTree into the objects that already served lookups and its by-leaf and by-index paths must prove the new leaves only; returned paths are edited/appended to by the harness and the tree re-verified; for n = 3 mod 8 the leaves are pointers to objects, one of which is edited in place before the same objects are computed again into the same tree; one long-lived object that served lookups is then given trees of other sizes (smaller, same depth, other depth) through ComputeTree and SetTree and must prove each of them by index and by leaf; by-leaf lookups also walk the leaves downwards; every 16th size also computes independent trees in 4 concurrent goroutines and compares with the sequential roots; a tree loaded from GetTree() without copying must be unaffected by the exporter computing other trees, and by SetTree calls on itself that are rejected for a wrong size. " +
 			"distinct non-trivial = distinct (n,i) pairs whose path was produced and verified",
 		Cases:      c19Sizes,
 		Run:        runC19,
 		Exhaustive: func(string) bool { return true },
-		Floors:     map[string]int64{"trees": 1000, "resized_object_paths": 20000, "downward_lookups": 20000, "trees_above_the_exhaustive_bound": 60, "trees_with_other_leaf_width": 250, "paths_verified": 500000, "other_leaf_rejections": 3000000, "settree_wrong_size_rejected": 1000, "reused_object_paths": 5000, "loaded_tree_paths_after_exporter_reuse": 3000, "paths_after_caller_edits": 3000, "concurrent_independent_tree_groups": 60},
+		Floors:     map[string]int64{"trees": 1000, "trees_of_pointer_leaves_recomputed_after_an_edit": 60, "resized_object_paths": 20000, "downward_lookups": 20000, "trees_above_the_exhaustive_bound": 60, "trees_with_other_leaf_width": 250, "paths_verified": 500000, "other_leaf_rejections": 3000000, "settree_wrong_size_rejected": 1000, "reused_object_paths": 5000, "loaded_tree_paths_after_exporter_reuse": 3000, "paths_after_caller_edits": 3000, "concurrent_independent_tree_groups": 60},
 		Assumptions: []string{
 			"leaf hashes of one tree are distinct strings of one fixed width (64 hex in most trees, 1..200 characters in a quarter of them): the tree concatenates strings, so leaves of different widths within one tree are outside the property's domain",
 			"exhaustive over n<=N and all indices, not over all leaf values",
